@@ -556,6 +556,9 @@ type reqSpec struct {
 	EmptyEDE  bool   `json:"empty_ede,omitempty"`
 	OptVer    uint8  `json:"opt_version,omitempty"`
 	OptZ      uint16 `json:"opt_z,omitempty"`
+	// Spelling is the name as it is sent if it differs from Name in letter case
+	// (0x20 randomisation); the response must carry exactly this spelling.
+	Spelling string `json:"spelling_on_the_wire,omitempty"`
 }
 
 var freeClasses = []string{"plain", "plain", "plain", "blk", "blk", "alw.blk", "rwa", "rwc", "rwc", "rwn", "rwt", "rwm", "rwh", "rws", "rwp", "rip", "rcn", "nx", "nodata", "refused", "ecs", "ecs"}
@@ -662,6 +665,10 @@ func genRequests(r *vkit.Run, n int, rqs []requester) []reqSpec {
 			genShape(rng, &s)
 			s.Requester = rng.IntN(len(rqs))
 			s.Debug = rng.IntN(8) == 0
+			if rng.IntN(3) == 0 {
+				// another client spells the same (cached) name in its own letter case
+				s.Spelling = mixCase(rng, s.Name)
+			}
 		}
 		s.AD = rng.IntN(4) == 0
 		s.CD = rng.IntN(8) == 0
@@ -669,6 +676,38 @@ func genRequests(r *vkit.Run, n int, rqs []requester) []reqSpec {
 		out = append(out, s)
 	}
 	return out
+}
+
+// wireName returns the name in the spelling the client uses.
+func (s *reqSpec) wireName() string {
+	if s.Spelling != "" {
+		return s.Spelling
+	}
+	return s.Name
+}
+
+// mixCase returns name with a random subset of its letters (at least one) in
+// upper case.
+func mixCase(rng interface{ IntN(int) int }, name string) string {
+	b := []byte(name)
+	var letters []int
+	for i, c := range b {
+		if c >= 'a' && c <= 'z' {
+			letters = append(letters, i)
+		}
+	}
+	if len(letters) == 0 {
+		return name
+	}
+	for _, i := range letters {
+		if rng.IntN(2) == 0 {
+			b[i] -= 'a' - 'A'
+		}
+	}
+	if string(b) == name {
+		b[letters[0]] -= 'a' - 'A'
+	}
+	return string(b)
 }
 
 func (s *reqSpec) build() (*dns.Msg, error) {
@@ -681,7 +720,7 @@ func (s *reqSpec) build() (*dns.Msg, error) {
 	if s.Debug {
 		qc = dns.ClassCHAOS
 	}
-	m.Question = []dns.Question{{Name: s.Name, Qtype: s.QType, Qclass: qc}}
+	m.Question = []dns.Question{{Name: s.wireName(), Qtype: s.QType, Qclass: qc}}
 	if s.EDNS {
 		o := &dns.OPT{Hdr: dns.RR_Header{Name: ".", Rrtype: dns.TypeOPT}}
 		o.SetUDPSize(s.UDPSize)
@@ -864,8 +903,9 @@ func compareOne(s *reqSpec, rq *requester, a, b *result, ageA, ageB time.Duratio
 			if s.Debug {
 				wantClass = dns.ClassCHAOS
 			}
-			if len(pm.m.Question) != 1 || !strings.EqualFold(pm.m.Question[0].Name, s.Name) || pm.m.Question[0].Qtype != s.QType || pm.m.Question[0].Qclass != wantClass {
-				return &mismatch{"stack:foreign-question", "response carries another request's question", map[string]any{"phase": pm.phase, "got": fmt.Sprint(pm.m.Question), "response": pm.m.String()}}
+			// byte-exact, letter case included: the question belongs to this request
+			if len(pm.m.Question) != 1 || pm.m.Question[0].Name != s.wireName() || pm.m.Question[0].Qtype != s.QType || pm.m.Question[0].Qclass != wantClass {
+				return &mismatch{"stack:foreign-question", "response carries another request's question (name spelling, type or class are not the ones this client sent)", map[string]any{"phase": pm.phase, "got": fmt.Sprint(pm.m.Question), "response": pm.m.String()}}
 			}
 		}
 		if bytes.Equal(a.packed[i], b.packed[i]) {
@@ -1114,4 +1154,22 @@ func runStackMonitor(t *testing.T, r *vkit.Run, httpsDefect bool) {
 	}
 	r.Extra("stack_class_to_response_shape", sh)
 	r.Bucket("stack_requests", int64(len(specs)))
+	var mixed, mixedOnSharedName int64
+	byName := map[string]map[string]bool{}
+	for i := range specs {
+		if byName[specs[i].Name] == nil {
+			byName[specs[i].Name] = map[string]bool{}
+		}
+		byName[specs[i].Name][specs[i].wireName()] = true
+	}
+	for i := range specs {
+		if specs[i].Spelling != "" {
+			mixed++
+			if len(byName[specs[i].Name]) > 1 {
+				mixedOnSharedName++
+			}
+		}
+	}
+	r.Bucket("stack_requests_with_mixed_case_spelling", mixed)
+	r.Bucket("stack_requests_with_mixed_case_spelling_of_a_name_others_spell_differently", mixedOnSharedName)
 }
